@@ -20,6 +20,7 @@ func init() {
 func propC07(a *Analysis, r *Registry) {
 	b := NewB(a, r)
 	X := b.X
+	X.BenignWriteTags["stats.KDE.Bandwidth"] = true // dist may be a KDE: its idempotent lazy bandwidth fill is not an effect of the quantile search
 	S := X.S
 	const rD = "C-dispatch"
 	dispatch := func(fname, method, sig string) {
@@ -95,43 +96,68 @@ func propC07(a *Analysis, r *Registry) {
 		name := "stats.InvCDF$1"
 		parent := a.W.Fn("stats.InvCDF")
 		b.guard("C-decision", name, func() {
-			fc := X.FCFor(fn)
 			env := X.EnvFor(fn, "y")
 			env.Set("dist", X.ParamRF(parent, 0), parent.Params[0].Type())
 			env.Let("l", "dist.Bounds()#0")
 			env.Let("h", "dist.Bounds()#1")
-			want := []struct{ val, cond string }{
-				{"stats.nan", "y<0 || 1<y"},
-				{"l", "!(y<0 || 1<y) && y==0 && dist.CDF(l)==0"},
-				{"-stats.inf", "!(y<0 || 1<y) && y==0 && dist.CDF(l)!=0"},
-				{"h", "!(y<0 || 1<y) && y!=0 && y==1 && dist.CDF(h)==1"},
-				{"stats.inf", "!(y<0 || 1<y) && y!=0 && y==1 && dist.CDF(h)!=1"},
+			// each early case decided as: under the case's condition the closure returns the stated value
+			// (wherever the return sits — in the closure or in a helper it delegates the end points to)
+			type cs struct {
+				val  string
+				cond []struct {
+					c string
+					t bool
+				}
 			}
-			type rc struct{ v, c *RF }
-			var got []rc
-			for _, rt := range fc.Ctx.Returns() {
-				func() {
-					defer func() { recover() }()
-					c := fc.ReachCond(rt.Block())
-					got = append(got, rc{fc.Val(rt.Results[0]), c})
-				}()
+			T := func(c string) struct {
+				c string
+				t bool
+			} {
+				return struct {
+					c string
+					t bool
+				}{c, true}
 			}
-			for _, w := range want {
-				wv, wc := env.MustParse(w.val), env.MustParse(w.cond)
-				ok := false
-				for _, g := range got {
-					if g.v.Equal(wv) && (g.c.Equal(wc) || S.BoolEquiv(g.c, wc)) {
-						ok = true
+			F := func(c string) struct {
+				c string
+				t bool
+			} {
+				return struct {
+					c string
+					t bool
+				}{c, false}
+			}
+			type ct = struct {
+				c string
+				t bool
+			}
+			cases := []cs{
+				{"stats.nan", []ct{T("y<0")}},
+				{"stats.nan", []ct{F("y<0"), T("1<y")}},
+				{"l", []ct{F("y<0"), F("1<y"), T("y==0"), T("dist.CDF(l)==0")}},
+				{"-stats.inf", []ct{F("y<0"), F("1<y"), T("y==0"), F("dist.CDF(l)==0")}},
+				{"h", []ct{F("y<0"), F("1<y"), F("y==0"), T("y==1"), T("dist.CDF(h)==1")}},
+				{"stats.inf", []ct{F("y<0"), F("1<y"), F("y==0"), T("y==1"), F("dist.CDF(h)==1")}},
+			}
+			for _, c := range cases {
+				var as []Assumption
+				var desc []string
+				for _, k := range c.cond {
+					as = append(as, X.AssumeCond(env.MustParse(k.c), k.t))
+					if k.t {
+						desc = append(desc, k.c)
+					} else {
+						desc = append(desc, "!("+k.c+")")
 					}
 				}
-				if ok {
-					r.OK("C-decision", name+"/returns "+w.val, b.pos(fn), "exactly when "+w.cond)
-				} else {
-					r.Fail("C-decision", name+"/returns "+w.val, b.pos(fn), "no early return of "+w.val+" under exactly: "+w.cond)
+				construct := name + "/returns " + c.val + " when " + strings.Join(desc, " && ")
+				cfc := X.Under(fn, as...)
+				rets := cfc.Ctx.Returns()
+				if len(rets) != 1 {
+					r.Fail("C-decision", construct, b.pos(fn), "under this condition "+itoa(len(rets))+" returns remain reachable (expected the one early return)")
+					continue
 				}
-			}
-			if len(got) != len(want) {
-				r.Fail("C-decision", name+"/early-returns", b.pos(fn), "expected "+itoa(len(want))+" loop-free early returns, found "+itoa(len(got)))
+				b.EqUnder("C-decision", construct, b.pos(fn), cfc, cfc.Val(rets[0].Results[0]), env, c.val)
 			}
 		})
 		b.guard("B-C07 bisection", name, func() {
@@ -215,7 +241,19 @@ func propC07(a *Analysis, r *Registry) {
 			} else {
 				r.Fail("B-C07 bisection", name+"/infinite-brackets", where, "early returns for infinite brackets missing or on other variables than the bracket handed to bisectBool")
 			}
-			if !hasAtomPrefix(lo, "phi:") && !hasAtomPrefix(lo, "memphi") || !hasAtomPrefix(hi, "phi:") && !hasAtomPrefix(hi, "memphi") {
+			fromLoops := func(v *RF) bool {
+				if hasAtomPrefix(v, "phi:") || hasAtomPrefix(v, "memphi") {
+					return true
+				}
+				// or a result of a helper of this package that contains the expansion loops
+				for _, hfc := range fc.BoundCallees(1)[1:] {
+					if len(hfc.Ctx.Loops()) > 0 && hasAtomPrefix(v, a.W.FuncName(hfc.Fn)+"#") {
+						return true
+					}
+				}
+				return false
+			}
+			if !fromLoops(lo) || !fromLoops(hi) {
 				r.Fail("B-C07 bisection", name+"/bracket", where, "the bracket handed to bisectBool is not the one produced by the expansion loops")
 			}
 		})
@@ -237,10 +275,20 @@ func propC07(a *Analysis, r *Registry) {
 				}
 			}
 			mid := "((high+low)/2)"
-			vars := b.LoopSystem("B-C07 bisection", name+"/recurrences", b.pos(fn), fc, lo.Add(hi), env, []recSpec{
-				{"low", "low0", "ite(f(" + mid + ")==flow, " + mid + ", low)"},
-				{"high", "high0", "ite(f(" + mid + ")==flow, high, " + mid + ")"},
-				{"flow", "f(low0)", "ite(f(" + mid + ")==flow, f(" + mid + "), flow)"},
+			// f at the low end is carried along (re-stored when the low end moves, which leaves it
+			// unchanged) or simply computed once: both are the same recurrence
+			var vars map[string]*RF
+			b.AnyOf(func() {
+				vars = b.LoopSystem("B-C07 bisection", name+"/recurrences", b.pos(fn), fc, lo.Add(hi), env, []recSpec{
+					{"low", "low0", "ite(f(" + mid + ")==flow, " + mid + ", low)"},
+					{"high", "high0", "ite(f(" + mid + ")==flow, high, " + mid + ")"},
+					{"flow", "f(low0)", "ite(f(" + mid + ")==flow, f(" + mid + "), flow)"},
+				})
+			}, func() {
+				vars = b.LoopSystem("B-C07 bisection", name+"/recurrences", b.pos(fn), fc, lo.Add(hi), env, []recSpec{
+					{"low", "low0", "ite(f(" + mid + ")==f(low0), " + mid + ", low)"},
+					{"high", "high0", "ite(f(" + mid + ")==f(low0), high, " + mid + ")"},
+				})
 			})
 			if vars == nil {
 				return
@@ -296,27 +344,77 @@ func propC07(a *Analysis, r *Registry) {
 			b.Eq("B-C07 rand", name+"/inverse-of-same-dist", b.pos(fn), at.Args[0], env, "InvCDF(dist)")
 			y := at.Args[1]
 			env.Set("y", y, nil)
-			yi, yn := fc.Recurrence(y)
-			b.EqRF("B-C07 rand", name+"/y-init", b.pos(fn), yi, S.Int(0), "y starts at 0 so that at least one draw is made")
-			draws := append(FindFn(yn, "call:Float64"), FindFn(yn, "math/rand.Float64")...)
-			okDraw := len(draws) == 2
-			for _, d := range draws {
-				if d.Name == "call:Float64" && !d.Args[0].Equal(env.Vars["r"].RF) {
-					okDraw = false
+			checkDraw := func(dfc *FC, yn *RF, renv *SpecEnv) {
+				draws := append(FindFn(yn, "call:Float64"), FindFn(yn, "math/rand.Float64")...)
+				okDraw := len(draws) == 2
+				for _, d := range draws {
+					if d.Name == "call:Float64" && !d.Args[0].Equal(renv.Vars["r"].RF) {
+						okDraw = false
+					}
+				}
+				if okDraw {
+					renv.Set("g", S.MakeFn("math/rand.Float64"), nil)
+					b.Eq("B-C07 rand", name+"/draw", b.pos(fn), yn, renv, "ite(r==nil, g, r.Float64())")
+				} else {
+					r.Fail("B-C07 rand", name+"/draw", b.pos(fn), "each iteration does not draw from r (or the global source when r==nil): "+clip(yn.String(), 200))
 				}
 			}
-			if okDraw {
-				env.Set("g", S.MakeFn("math/rand.Float64"), nil)
-				b.Eq("B-C07 rand", name+"/draw", b.pos(fn), yn, env, "ite(r==nil, g, r.Float64())")
-			} else {
-				r.Fail("B-C07 rand", name+"/draw", b.pos(fn), "each iteration does not draw from r (or the global source when r==nil): "+clip(yn.String(), 200))
-			}
-			hdr := X.phiOf[y.SingleAtom().ID].Block()
-			if ifi, ok := hdr.Instrs[len(hdr.Instrs)-1].(*ssa.If); ok {
-				b.Eq("B-C07 rand", name+"/redraw-while-zero", a.W.InstrPos(ifi), fc.Val(ifi.Cond), env, "y==0")
-			} else {
-				r.Fail("B-C07 rand", name+"/redraw-while-zero", b.pos(fn), "no loop on y==0")
-			}
+			b.AnyOf(func() {
+				// while form: y := 0; for y == 0 { y = draw }
+				yi, yn := fc.Recurrence(y)
+				b.EqRF("B-C07 rand", name+"/y-init", b.pos(fn), yi, S.Int(0), "y starts at 0 so that at least one draw is made")
+				checkDraw(fc, yn, env)
+				hdr := X.phiOf[y.SingleAtom().ID].Block()
+				if ifi, ok := hdr.Instrs[len(hdr.Instrs)-1].(*ssa.If); ok {
+					b.Eq("B-C07 rand", name+"/redraw-while-zero", a.W.InstrPos(ifi), fc.Val(ifi.Cond), env, "y==0")
+				} else {
+					r.Fail("B-C07 rand", name+"/redraw-while-zero", b.pos(fn), "no loop on y==0")
+				}
+			}, func() {
+				// do-while form, possibly in a helper: for { u = draw; if u != 0 { return u } }
+				for _, hfc := range fc.BoundCallees(1) {
+					loops := hfc.Ctx.Loops()
+					rets := hfc.Ctx.Returns()
+					if len(loops) != 1 || len(rets) != 1 {
+						continue
+					}
+					// the return is taken from inside the loop (its block is entered only from the loop body)
+					fromLoop := len(hfc.Ctx.LivePreds(rets[0].Block())) > 0
+					for _, pb := range hfc.Ctx.LivePreds(rets[0].Block()) {
+						if !loops[0].Body[pb.Index] {
+							fromLoop = false
+						}
+					}
+					if !fromLoop {
+						continue
+					}
+					if hfc != fc {
+						cat := y.SingleAtom()
+						if cat == nil || !strings.HasSuffix(cat.Name, hfc.Fn.Name()) {
+							continue
+						}
+					}
+					u := hfc.Val(rets[0].Results[0])
+					henv := X.EnvFor(fn, "r")
+					checkDraw(hfc, u, henv)
+					henv.Set("u", u, nil)
+					b.Eq("B-C07 rand", name+"/redraw-while-zero", b.pos(hfc.Fn), hfc.ReachCondFrom(loops[0].Header, rets[0].Block()), henv, "u!=0")
+					// the loop is left only through that return
+					exits := 0
+					for bi := range loops[0].Body {
+						for _, sc := range hfc.Ctx.LiveSuccs(hfc.Fn.Blocks[bi]) {
+							if !loops[0].Body[sc.Index] && sc != rets[0].Block() {
+								exits++
+							}
+						}
+					}
+					if exits != 0 {
+						r.Fail("B-C07 rand", name+"/redraw-while-zero", b.pos(hfc.Fn), "the drawing loop can be left without returning a non-zero draw")
+					}
+					return
+				}
+				r.Fail("B-C07 rand", name+"/draw", b.pos(fn), "no drawing loop found (neither `for y == 0 { y = draw }` nor `for { u = draw; if u != 0 { return u } }`)")
+			})
 		})
 		a.CheckNoMutation(r, "A-1 no-mutation", parent, nil)
 	}
